@@ -74,7 +74,8 @@ let rec parse_case = function
         | x -> failwith ("rp: bad option " ^ to_string x)) opts;
     { strict = !strict; na = !na; twin = !twin; cache = !cache; onpanic = !onp; onerror = !one;
       stmts = List.map stmt ss;
-      hs = List.map (function L [id; L ops] -> (int id, List.map hop ops) | x -> failwith ("rp: bad handler " ^ to_string x)) hs;
+      (* (an optional third element names the way the handler is written: std = a net/http handler behind an adaptor) *)
+      hs = List.map (function L (id :: L ops :: _) -> (int id, List.map hop ops) | x -> failwith ("rp: bad handler " ^ to_string x)) hs;
       reqs = List.map (function L [m; p; L sc] -> (str m, str p, List.map nat sc) | x -> failwith ("rp: bad req " ^ to_string x)) reqs;
       late_stmts = []; late_reqs = [] }
   | x -> failwith ("rp: bad case " ^ to_string x)
